@@ -230,13 +230,14 @@ def check_kind(chk, tier, kind, stats, model_ok, lines, checks):
                            "RULES %s %s" % (cslot, lr1dump.rules_text(cached_user, sym))]) + "\n")
     base = len(lines)
     lines += ["LOADF " + path, "BISIM %s %s" % (cslot, fslot), "LRVALID " + fslot,
-              "SAMERULES ir doc", "SAMERULES ir " + cslot]
+              "SAMERULES ir doc", "SAMERULES ir " + cslot, "LRTERM " + cslot]
     checks.append((base + 1, "bisim", (kind, cached, fresh, user, sym, r)))
     checks.append((base + 2, "valid", kind))
     checks.append((base + 3, "samerules", ("module_ir.PRODUCTIONS", "doc/grammar.md", py_same, user, doc)))
     checks.append((base + 4, "samerules", ("module_ir.PRODUCTIONS", "cached_parser %s productions" % kind,
                                            py_same, user, cached_user)))
-    chk.count(4)
+    checks.append((base + 5, "term", kind))
+    chk.count(5)
     # ---- correspondence on token streams: loaded parser vs cached model vs fresh real parser
     streams, muts = token_streams(tier, kind, r)
     for k, toks in enumerate(streams + muts):
@@ -344,6 +345,15 @@ def run(tier):
                         "which": payload, "model": ans,
                         "theorem_or_correspondence": "LRVALID of the freshly generated Emboss tables (C08 validator)",
                         "expected": "valid"}, found_input=False)
+            elif what == "term":
+                # termination analysis of the *shipped* tables (C08_terminates applies to any table)
+                stats["terminates_" + payload] = ans
+                if ans != "terminates":
+                    dis += 1
+                    chk.violation("correspondence", {
+                        "which": payload, "model": ans,
+                        "theorem_or_correspondence": "LRTERM (TermOK, C08_terminates) of the cached tables",
+                        "expected": "terminates"}, found_input=False)
             elif what == "samerules":
                 a, b, py_same, la, lb = payload
                 stats["samerules:%s=%s" % (a, b)] = ans
